@@ -19,9 +19,11 @@ IsEvent(e) == l <= NRec /\ Rec[l].ev = e /\ l' = l + 1
 TInit == Init /\ l = 1
 
 TKat         == IsEvent("kat") /\ LearnKat(Rec[l].data, Rec[l].crc)
-TLearn       == IsEvent("crc") /\ Learn(Rec[l].payload, Rec[l].crc) /\ out' = Rec[l]
-TFromDecoded == IsEvent("from_decoded") /\ FromDecoded(Rec[l].payload) /\ out' = Rec[l]
-TRoundTrip   == IsEvent("roundtrip") /\ RoundTrip(Rec[l].entry, Rec[l].payload) /\ out' = Rec[l]
+TLearn       == IsEvent("crc") /\ Learn(Rec[l].payload, Rec[l].crc)
+\* events may carry informational fields (e.g. "len", the encoded size): the spec's fields are compared one by one
+TFromDecoded == IsEvent("from_decoded") /\ FromDecoded(Rec[l].payload) /\ out'.crc = Rec[l].crc
+TRoundTrip   == /\ IsEvent("roundtrip") /\ RoundTrip(Rec[l].entry, Rec[l].payload)
+                /\ out'.crc = Rec[l].crc /\ out'.outcome = Rec[l].outcome /\ out'.same = Rec[l].same
 TCorrupt     == IsEvent("corrupt") /\ UNCHANGED <<crcOf, out>>
 TParseOk     == IsEvent("parse") /\ Rec[l].outcome = "ok" /\ ParseYields(Rec[l].entry, Rec[l].payload, Rec[l].crc)
 TParseErr    == IsEvent("parse") /\ Rec[l].outcome = "err" /\ ParseFails(Rec[l].entry)
